@@ -51,10 +51,9 @@ def cex_args(job, fi, cex, tr):
         return None
     idx, skip_this = R.input_params(job, fi)
     leaves = []
-    for k in idx:
-        if skip_this and k == 0:
-            continue
-        v = cex.get('vp_in%d' % k)
+    names = job.inputs if job.inputs else ['vp_in%d' % k for k in idx if not (skip_this and k == 0)]
+    for nm in names:
+        v = cex.get(nm)
         if v is None:
             return None
         tmp = []
